@@ -160,7 +160,8 @@ def leanchecker(mods):
 # Rust side
 
 def build_harness():
-    lock = os.path.join(HARNESS, "Cargo.lock")
+    import macro_stream
+    macro_stream.ensure_corpus()
     rc, out, dt = sh(["cargo", "build", "--release", "--offline"], cwd=HARNESS, timeout=3000)
     if rc != 0:
         errs = [l for l in out.splitlines() if l.startswith("error")][:6]
@@ -267,7 +268,7 @@ def shrink_episode(ep, want, workdir, budget=400):
     return {"head": ep["head"], "ops": ops}
 
 
-def write_replay(prop, seed, kind, what, ep=None, extra=None):
+def write_replay(prop, seed, kind, what, ep=None, extra=None, raw_lines=None):
     os.makedirs(REPLAYS, exist_ok=True)
     path = os.path.join(REPLAYS, f"{prop}-{seed}-{kind}.txt")
     with open(path, "w") as f:
@@ -279,6 +280,8 @@ def write_replay(prop, seed, kind, what, ep=None, extra=None):
                 f.write(f"# {l}\n")
         if ep:
             f.write(render_episodes([ep]))
+        if raw_lines:
+            f.write("\n".join(raw_lines) + "\n")
     return os.path.relpath(path, ROOT)
 
 
@@ -491,8 +494,14 @@ def decide(prop, tier, seed):
             still = episode_fails(ep, ("MON", v["id"]), workdir)
             if still:
                 what = still["text"]
+        raw = None
+        if v.get("line_text"):
+            raw = [v["line_text"]]
+        if v.get("ep_text"):
+            import macro_stream
+            raw = macro_stream.episode_inputs(v["ep_text"], upto=v["step"])
         path = write_replay(prop, seed, "monitor", "the property is false on the real code:\n" + what, ep,
-                            extra=v.get("extra"))
+                            extra=v.get("extra"), raw_lines=raw)
         violations.append((path, ""))
 
     seen_sig = set()
@@ -536,10 +545,20 @@ def decide(prop, tier, seed):
                 again = episode_fails(ep, ("DIFF", None), workdir)
                 if again:
                     cproblems.insert(0, "minimised disagreement: " + again["text"][:900])
+            raw = None
+            if ep is None:
+                for st2, r2 in stream_results:
+                    for v2 in r2.get("verdicts", []):
+                        if v2["kind"] == "DIFF" and v2.get("ep_text"):
+                            import macro_stream
+                            raw = macro_stream.episode_inputs(v2["ep_text"], upto=v2["step"])
+                            break
+                    if raw:
+                        break
             what = "no concrete failing input was found, but the property is no longer shown to hold:\n" + \
                    "\n".join(["OBLIGATION " + p for p in oproblems] + ["CORRESPONDENCE " + p for p in cproblems[:6]]) + \
                    f"\nfailing-input search: {searched} further episodes, monitors {spec['monitors']} silent"
-            path = write_replay(prop, seed, "unproved", what, ep)
+            path = write_replay(prop, seed, "unproved", what, ep, raw_lines=raw)
             violations.append((path, " no-failing-input-found"))
 
     # evidence
@@ -619,6 +638,9 @@ def replay(prop, path):
     full = path if os.path.isabs(path) else os.path.join(ROOT, path)
     text = open(full).read()
     print(text if len(text) < 4000 else text[:4000])
+    body = [l for l in text.splitlines() if l.strip() and not l.startswith("#")]
+    if body and body[0].startswith("E|"):
+        return replay_macro(prop, full)
     eps = parse_episodes(text)
     if not eps:
         print("replay file names a broken obligation/correspondence, no concrete input to run")
@@ -639,7 +661,76 @@ def replay(prop, path):
     return 1 if bad else 0
 
 
-STREAM_RUNNERS = {"core": run_core_stream}
+def run_macro_stream(prop, stream, tier, seed, workdir, scale=1):
+    import macro_stream
+    return macro_stream.run_macro_stream(prop, stream, tier, seed, workdir, scale)
+
+
+def replay_macro(prop, full):
+    import macro_stream
+    spec = PROPS[prop]
+    macro_stream.ensure_corpus()
+    ok, out, _ = lake_build(["driver"])
+    ok2, msg, _ = build_harness()
+    if not (ok and ok2):
+        print("cannot build:", msg or out[-500:]); return 2
+    p = subprocess.run([os.path.join(BIN, "macro_diff"), "replay", full], stdout=subprocess.PIPE, stderr=subprocess.PIPE, env=ENV, text=True)
+    spec_text, sp = macro_stream.specs()
+    q = subprocess.run([DRIVER, "macro"], input=spec_text + p.stdout, stdout=subprocess.PIPE, stderr=subprocess.STDOUT, env=ENV, text=True)
+    for l in p.stdout.splitlines():
+        print(l[:300])
+    print(q.stdout[-3000:])
+    fails, _ = macro_stream.analyse(p.stdout, sp, [], set())
+    bad = [f for f in fails if f["kind"] == "BAD" or f["id"] in spec["monitors"]]
+    for f in bad:
+        print(f["text"])
+    diffs = [l for l in q.stdout.splitlines() if l.startswith("DIFF") or l.startswith("BAD")]
+    return 1 if (bad or diffs) else 0
+
+
+def run_lines_stream(prop, stream, tier, seed, workdir, scale=1):
+    """generic one-case-per-line stream: a harness binary prints cases computed with the REAL code, the Lean
+    driver mode answers ok / DIFF / MON / BAD per line"""
+    n = stream["n"][tier] * scale
+    cmd = [os.path.join(BIN, stream["bin"])] + [a.format(seed=seed, n=n) for a in stream["args"]]
+    p = subprocess.run(cmd, stdout=subprocess.PIPE, stderr=subprocess.PIPE, env=ENV, text=True)
+    if p.returncode != 0:
+        return {"error": f"{stream['bin']} exited {p.returncode}: {p.stderr[-300:]}"}
+    q = subprocess.run([DRIVER, stream["mode"]], input=p.stdout, stdout=subprocess.PIPE, stderr=subprocess.STDOUT, env=ENV, text=True)
+    acc = {"steps": 0, "events": {}, "configs": set(), "by_flavour_policy": {}, "nontrivial": set(), "samples": []}
+    nre = re.compile(stream.get("nontrivial_re", "."))
+    for line in p.stdout.splitlines():
+        if line.startswith("#STAT"):
+            for tok in line.split()[1:]:
+                if "=" in tok:
+                    k, _, v = tok.partition("=")
+                    if v.isdigit():
+                        acc["events"][k] = acc["events"].get(k, 0) + int(v)
+            continue
+        if not line or line.startswith("#"):
+            continue
+        acc["steps"] += 1
+        if nre.search(line):
+            acc["nontrivial"].add(hash(line))
+            if len(acc["samples"]) < 3:
+                acc["samples"].append(line[:300])
+    verdicts = []
+    for l in q.stdout.splitlines():
+        for part in l.split(" ;; "):
+            if part.startswith("DIFF"):
+                verdicts.append({"kind": "DIFF", "id": None, "episode": 0, "step": 0, "text": part[:900], "line_text": l[:2000]})
+            elif part.startswith("MON "):
+                verdicts.append({"kind": "MON", "id": part.split()[1], "episode": 0, "step": 0, "text": part[:900], "line_text": l[:2000]})
+            elif part.startswith("BAD"):
+                verdicts.append({"kind": "BAD", "id": None, "episode": 0, "step": 0, "text": part[:900]})
+    m = re.search(r"SUMMARY lines=(\d+)", q.stdout)
+    if not m:
+        verdicts.append({"kind": "BAD", "id": None, "episode": 0, "step": 0, "text": "driver produced no summary: " + q.stdout[-300:]})
+    return {"episodes": acc["steps"], "corpus_episodes": 0, "acc": acc, "verdicts": verdicts,
+            "model_runs": int(m.group(1)) if m else 0}
+
+
+STREAM_RUNNERS = {"core": run_core_stream, "macro": run_macro_stream, "lines": run_lines_stream}
 
 
 # ------------------------------------------------------------------------------------------------
